@@ -1830,6 +1830,11 @@ func (m *Model) applyReconfig(c Call, o Obs) []Hit {
 		s.Cfg.MinBackoff, s.Cfg.MaxBackoff = 30*time.Second, 40*time.Second
 	case c.Op.Tgt == "retry:none":
 		s.Cfg.MinBackoff, s.Cfg.MaxBackoff = 0, 0
+	case c.Op.Tgt == "retry:5s-max0":
+		// an explicit zero is "not configured": the default applies
+		s.Cfg.MinBackoff, s.Cfg.MaxBackoff = 5*time.Second, 0
+	case c.Op.Tgt == "retry:min0-max40s":
+		s.Cfg.MinBackoff, s.Cfg.MaxBackoff = 0, 40*time.Second
 	default:
 		panic("unknown reconfig " + c.Op.Tgt)
 	}
